@@ -17,6 +17,7 @@ from .lin import Lin, Prover, show_lin, show_term
 from .model import AnalysisError, Ty, dotted, unparse, walk_no_nested
 
 MAX_STATES = 20000
+LEN_MAX = 2 ** 63 - 1      # Py_ssize_t: upper bound of any len()
 
 CAST_NAMES = {
     "uint8": Ty("uint", 8), "uint16": Ty("uint", 16), "uint32": Ty("uint", 32), "uint64": Ty("uint", 64),
@@ -262,6 +263,7 @@ class Event:
         self.facts = tuple(st.facts)
         self.nes = tuple(st.nes)
         self.atoms = dict(st.atoms)
+        self.ors = tuple(st.ors)
         self.path = st.path
         self.loops = st.loops
         self.env = st.env           # reference to the env dict at that time (copied on fork)
@@ -470,6 +472,10 @@ class Walker:
         if p in self.consts:
             return Num(Lin.const(self.consts[p]), ty=ty)
         if ty is None:
+            ann = self.annotation(p)
+            if ann == "bytes":
+                ln = self.named(("len", p), (0, LEN_MAX))
+                return Bytes(p, Lin.const(0), None, Lin.term(ln))
             return Num(Lin.term(self.named(("param", p))), ty=None) if not self.func.is_kernel else Opaque("param:" + p)
         if ty.is_array:
             return Arr(p, ety=ty.scalar, ndim=ty.ndim, origin="param")
@@ -478,9 +484,16 @@ class Walker:
         if ty.kind == "float":
             return Num(Lin.term(self.named(("param", p), isfloat=True)), isfloat=True, ty=ty)
         if ty.kind == "bytes":
-            ln = self.named(("len", p), (0, None))
+            ln = self.named(("len", p), (0, LEN_MAX))
             return Bytes(p, Lin.const(0), None, Lin.term(ln))
         return Opaque("param:" + p)
+
+    def annotation(self, p):
+        a = self.func.node.args
+        for arg in a.posonlyargs + a.args + a.kwonlyargs:
+            if arg.arg == p and arg.annotation is not None:
+                return unparse(arg.annotation)
+        return None
 
     # -- blocks ---------------------------------------------------------
     def block(self, stmts, st):
@@ -883,6 +896,22 @@ class Walker:
         elif k == "false":
             st.dead = True
 
+    def refine(self, ev, conds):
+        """A state rebuilt from an event snapshot with extra assumptions; pending disjunctions are re-examined."""
+        st = State()
+        st.env = dict(ev.env)
+        st.facts = list(ev.facts)
+        st.nes = list(ev.nes)
+        st.atoms = dict(ev.atoms)
+        st.memver = dict(ev.memver)
+        st.path = ev.path
+        st.loops = ev.loops
+        for c in conds:
+            self.assume(st, c)
+        for o in ev.ors:
+            self.assume(st, o)
+        return st
+
     def cond(self, node, st):
         v = self.ev(node, st)
         return self.as_cond(v, node)
@@ -1136,7 +1165,7 @@ class Walker:
     def bytes_slice(self, base, sl, st):
         lo, hi = sl[1], sl[2]
         if lo == "?" or hi == "?":
-            ln = self.fresh("len", "slice", (0, None))
+            ln = self.fresh("len", "slice", (0, LEN_MAX))
             return Bytes(("unknown", next(self._ids)), Lin.const(0), None, Lin.term(ln))
         lo = lo if lo is not None else Lin.const(0)
         start = base.start + lo
@@ -1191,7 +1220,10 @@ class Walker:
         # scalar constructors / casts
         ct = cast_target(fn)
         if ct is not None and len(e.args) == 1 and not e.keywords:
-            return self.cast(ct, self.ev(e.args[0], st), st, e)
+            av = self.ev(e.args[0], st)
+            if d == "int" and not self.func.is_kernel and isinstance(av, Num) and not self.P.is_float(av.lin):
+                return Num(av.lin)          # Python int(): arbitrary precision, value preserving
+            return self.cast(ct, av, st, e)
         if d == "len" and len(e.args) == 1:
             v = self.ev(e.args[0], st)
             if isinstance(v, Bytes):
@@ -1199,7 +1231,7 @@ class Walker:
             if isinstance(v, Arr) and v.length is not None:
                 return Num(v.length)
             t = ("len", repr(_vkey(v)))
-            self.named(t, (0, None))
+            self.named(t, (0, LEN_MAX))
             return Num(Lin.term(t))
         if d in ("min", "max") and len(e.args) == 2 and not e.keywords:
             a, b = self.ev(e.args[0], st), self.ev(e.args[1], st)
@@ -1244,8 +1276,13 @@ class Walker:
                 if isinstance(last, tuple) and last[0] == "slice" and last[1] is None and isinstance(last[2], Lin):
                     root = ("arrbytes", v.arr.name, tuple(i.lin.key() for i in v.index_nums()))
                     return Bytes(root, Lin.const(0), last[2], last[2])   # length assumes n <= row length (rule checks)
-            ln = self.fresh("len", "bytes", (0, None))
+            ln = self.fresh("len", "bytes", (0, LEN_MAX))
             return Bytes(("bytes", next(self._ids)), Lin.const(0), None, Lin.term(ln))
+        # argument-less method call on self: a pure observer of the object state (n_added(), n_records())
+        if isinstance(fn, ast.Attribute) and isinstance(fn.value, ast.Name) and fn.value.id in ("self", "other") \
+                and not e.args and not e.keywords and not self.func.is_kernel:
+            self.emit("call", e, st, callee=None, name=d, args=[], kwargs={}, result=None)
+            return Num(Lin.term(self.named(("mcall", fn.value.id, fn.attr))))
         # resolved callee in the package
         callee = None
         if isinstance(fn, ast.Name) and fn.id not in st.env:
